@@ -18,6 +18,7 @@ import (
 	"math/rand/v2"
 	"sort"
 	"strings"
+	"sync"
 
 	"cuelabs.dev/go/oci/ociregistry"
 	"cuelabs.dev/go/oci/ociregistry/ocimem"
@@ -26,6 +27,7 @@ import (
 	"verifharness/internal/evid"
 	"verifharness/internal/model"
 	"verifharness/internal/rec"
+	"verifharness/internal/stack"
 )
 
 func tail(h []string) []string {
@@ -454,6 +456,132 @@ func faultySourcePush(run *evid.Run, idx int) {
 	}
 }
 
+// rotating is a member whose upload identifiers change with every successful Write (like registries
+// that put per-request state into the upload location); only the latest identifier resumes the upload.
+// The BlobWriter contract allows it: ID is valid only before the first Write and after Close.
+type rotating struct {
+	ociregistry.Interface
+	mu  sync.Mutex
+	gen map[string]int
+}
+
+type rotatingWriter struct {
+	ociregistry.BlobWriter
+	r *rotating
+}
+
+func (r *rotating) PushBlobChunked(ctx context.Context, repo string, hint int) (ociregistry.BlobWriter, error) {
+	w, err := r.Interface.PushBlobChunked(ctx, repo, hint)
+	if err != nil {
+		return nil, err
+	}
+	return &rotatingWriter{w, r}, nil
+}
+
+func (r *rotating) PushBlobChunkedResume(ctx context.Context, repo, id string, offset int64, hint int) (ociregistry.BlobWriter, error) {
+	i := strings.LastIndex(id, "~")
+	if i < 0 {
+		return nil, fmt.Errorf("%w: no generation in %q", ociregistry.ErrBlobUploadUnknown, id)
+	}
+	r.mu.Lock()
+	cur := r.gen[id[:i]]
+	r.mu.Unlock()
+	if id[i+1:] != fmt.Sprint(cur) {
+		return nil, fmt.Errorf("%w: identifier %q is not the latest one of this upload (generation %d)", ociregistry.ErrBlobUploadUnknown, id, cur)
+	}
+	w, err := r.Interface.PushBlobChunkedResume(ctx, repo, id[:i], offset, hint)
+	if err != nil {
+		return nil, err
+	}
+	return &rotatingWriter{w, r}, nil
+}
+
+func (w *rotatingWriter) Write(p []byte) (int, error) {
+	n, err := w.BlobWriter.Write(p)
+	if err == nil {
+		w.r.mu.Lock()
+		w.r.gen[w.BlobWriter.ID()]++
+		w.r.mu.Unlock()
+	}
+	return n, err
+}
+
+func (w *rotatingWriter) ID() string {
+	w.r.mu.Lock()
+	defer w.r.mu.Unlock()
+	return fmt.Sprintf("%s~%d", w.BlobWriter.ID(), w.r.gen[w.BlobWriter.ID()])
+}
+
+// rotatingIDs: chunked uploads with close-and-resume through a unifier whose members hand out a new
+// upload identifier after every Write. The same upload is run against a third, equal registry of the
+// same kind on its own: a write that each member accepts when asked directly must be applied to both
+// members by the unifier, which then holds the blob in both.
+func rotatingIDs(run *evid.Run, idx int) {
+	rng := run.Rand(156, uint64(idx))
+	m0, m1, mt := ocimem.New(), ocimem.New(), ocimem.New()
+	var r0, r1, rt ociregistry.Interface = &rotating{Interface: m0, gen: map[string]int{}}, &rotating{Interface: m1, gen: map[string]int{}}, &rotating{Interface: mt, gen: map[string]int{}}
+	via := "direct"
+	var closers []func()
+	if idx%3 == 2 {
+		via = "http"
+		for _, p := range []*ociregistry.Interface{&r0, &r1, &rt} {
+			c, cl := stack.HTTP(*p, stack.HTTPOpts{})
+			*p = c
+			closers = append(closers, cl)
+		}
+	}
+	defer func() {
+		for _, c := range closers {
+			c()
+		}
+	}()
+	u := ociunify.New(r0, r1, &ociunify.Options{ReadPolicy: ociunify.ReadPolicy(idx % 2)})
+	eu, et := model.NewEnv(u), model.NewEnv(rt)
+	eu.PeekID, et.PeekID = idx%4 < 2, idx%4 < 2
+	run.Eval(1)
+	for k := 0; k < 4; k++ {
+		data := []byte(fmt.Sprintf("rotating ids %d %d %s", idx, k, strings.Repeat("r", rng.IntN(30))))
+		var parts [][]byte
+		var resumeAt []int
+		for rest := data; len(rest) > 0; {
+			n := 1 + rng.IntN(len(rest))
+			parts = append(parts, rest[:n])
+			rest = rest[n:]
+			if len(rest) > 0 && rng.IntN(2) == 0 {
+				resumeAt = append(resumeAt, len(parts))
+			}
+		}
+		op := &model.Op{Kind: "Upload", Repo: "r/rot", Parts: parts, ResumeAt: resumeAt, Digest: model.Digest(data), Hint: []int{0, 1, 3, 100}[rng.IntN(4)]}
+		if via == "direct" && len(resumeAt) > 0 && rng.IntN(3) == 0 {
+			op.ResumeNeg = true
+		}
+		var ou, ot *model.Outcome
+		if !run.Case("rotating-ids/total", map[string]any{"op": op.String()}, func() { ou, ot = eu.Exec(op), et.Exec(op) }) {
+			return
+		}
+		_, e0 := m0.ResolveBlob(bg, "r/rot", ociregistry.Digest(op.Digest))
+		_, e1 := m1.ResolveBlob(bg, "r/rot", ociregistry.Digest(op.Digest))
+		w := map[string]any{"op": op, "via": via, "through_unifier": ou.String(), "unifier_error": ou.Err, "same_registry_alone": ot.String(), "member0_has_blob": e0 == nil, "member1_has_blob": e1 == nil}
+		run.Count("rotating_id_uploads", 1)
+		if len(resumeAt) > 0 {
+			run.Count("rotating_id_uploads_with_resume", 1)
+		}
+		run.Distinct(fmt.Sprintf("rotating-ids/%s/resumes=%d/neg=%v/ok=%v", via, min(len(resumeAt), 3), op.ResumeNeg, ou.OK))
+		if ot.OK && !ou.OK {
+			run.Violation("replicate/write-each-member-accepts-not-applied/Upload", fmt.Sprintf("%s succeeds on a registry of the members' kind on its own, but through the unifier over two such (equal, healthy) members it fails: %s", op, ou.Err), w)
+			return
+		}
+		if ou.OK && (e0 != nil || e1 != nil) {
+			run.Violation("replicate/success-without-both/Upload", "the upload reported success although a member lacks the blob", w)
+			return
+		}
+		if (e0 == nil) != (e1 == nil) {
+			run.Violation("replicate/members-diverged/Upload", "after the upload one member has the blob and the other has not", w)
+			return
+		}
+	}
+}
+
 // unequalWrites: writes through the unifier over members that are NOT equal (repositories, tags and
 // content known to one member only). The first half of the write rule does not depend on the members
 // being equal: the write reaches both members, and success is reported only if both calls succeeded.
@@ -717,6 +845,10 @@ func main() {
 		unequalWrites(run, i)
 	}
 	run.FloorCounter("unequal_member_writes_one_member_failed", 50)
+	for i, n := 0, run.N(90, 2400); i < n; i++ {
+		rotatingIDs(run, i)
+	}
+	run.FloorCounter("rotating_id_uploads_with_resume", 100)
 	nw := run.N(400, 8000)
 	for i := 0; i < nw; i++ {
 		writeHistory(run, i)
